@@ -339,6 +339,8 @@ Parse(e) ==
              \cup (IF Has(e, "of") /\ Known(objs, e.of) /\ Has(e, "g")
                       /\ (IF Has(e, "wit") THEN ~IsColourIso(prov[e.of].g, GraphOf(e.g), PermOf(e.wit)) ELSE Has(e, "nowit"))
                      THEN {"C03:parsed-graph-is-not-the-molecule-the-string-was-made-for"} ELSE {})
+             \cup (IF Has(e, "of") /\ Known(objs, e.of) /\ Has(e, "exc")
+                     THEN {"C03:string-produced-for-a-molecule-is-rejected-by-the-parser"} ELSE {})
      /\ IF Has(e, "g") /\ NewObj(e.ret)
         THEN LET P == GraphOf(e.g)
                  \* the string came out of Serialize(of) and the harness supplied the witness: verified => same molecule
